@@ -360,6 +360,63 @@ def oracle_plain(case) -> Result:
 
 
 # ----------------------------------------------------------------------------------------
+# selection coefficient of the bit-aware models that divide by it (NE16): any value in (0, 1]
+# ----------------------------------------------------------------------------------------
+THETAS = [1.0, 0.5, 1e-3, 1e-7, 1e-12, 1e-13, 1e-19, 1e-20, 1e-30, 1e-36, 1e-38, 1e-44]
+
+
+def enum_theta(tier):
+    for (name, tname, dw, _fn) in entries():
+        if name != 'ne16_latency':
+            continue
+        for k in allowed_k(name, tname, dw):
+            for w in (2, 4, 8):
+                for (cin, cout) in ((3, 8), (16, 33)):
+                    if dw:
+                        cin = cout
+                    yield {'mode': 'theta', 'spec': name, 'type': tname, 'dw': dw, 'k': k,
+                           'w_bits': w, 'cin': cin, 'cout': cout, 'out': [5, 5]}
+
+
+def oracle_theta(case) -> Result:
+    """The layer functions return latency / w_theta_alpha because the caller multiplies by the
+    coefficient: the contribution theta * f(theta) and its gradients must stay finite and
+    non-negative for every coefficient a soft-max can produce, however small."""
+    import torch
+    res = Result()
+    name, tname, dw = case['spec'], case['type'], case['dw']
+    fn = entry(name, tname, dw)
+    for th in THETAS:
+        sp = make_spec(name, tname, dw, case['cin'], case['cout'], case['k'], case['out'], True,
+                       case['w_bits'], 8, grad=True)
+        t = torch.tensor(th, dtype=torch.float32, requires_grad=True)
+        if float(t) == 0.0:
+            continue
+        sp['w_theta_alpha'] = t
+        try:
+            v = fn(sp)
+            contrib = t * v
+            gs = torch.autograd.grad(contrib, [t] + [sp[k] for k in sp if isinstance(sp[k], torch.Tensor)
+                                                     and sp[k].requires_grad and sp[k] is not t],
+                                     allow_unused=True)
+        except Exception as e:  # noqa
+            res.bad('cost-raised-for-a-small-selection-coefficient', theta=th, type=tname, dw=dw,
+                    error=f"{type(e).__name__}: {str(e)[:120]}")
+            return res
+        if not math.isfinite(float(v)) or not math.isfinite(float(contrib)) or float(contrib) < 0:
+            res.bad('cost-not-finite-for-a-small-selection-coefficient', theta=th, type=tname, dw=dw,
+                    k=case['k'], w_bits=case['w_bits'], value=float(v), contribution=float(contrib))
+            return res
+        if any(g is not None and not bool(torch.isfinite(g).all()) for g in gs):
+            res.bad('gradient-not-finite-for-a-small-selection-coefficient', theta=th, type=tname,
+                    dw=dw, k=case['k'], w_bits=case['w_bits'])
+            return res
+    res.nontrivial = True
+    res.ev('spec:' + name, 'selection-coefficient-sweep')
+    return res
+
+
+# ----------------------------------------------------------------------------------------
 # rounding helpers
 # ----------------------------------------------------------------------------------------
 def helpers():
@@ -486,6 +543,9 @@ CHECK = Check(
         Part('real-layer-descriptions', oracle_plain, enumerate=enum_plain,
              exhaustive_note='params / ops (+no_bias) / gap8 on vars() of real nn.Conv1d/Conv2d/'
                              'Linear layers (plain-number channel counts) x channels x kernels x bias'),
+        Part('selection-coefficient', oracle_theta, enumerate=enum_theta,
+             exhaustive_note='every NE16 pattern x kernels x weight bits x 2 sizes x 12 selection '
+                             'coefficients from 1 down to 1e-44 (value, contribution, gradients)'),
         Part('dw-equals-generic', oracle_dw, enumerate=enum_dw_equiv,
              exhaustive_note='size/ops/bit specs x Conv1d/2d x channels x kernels x bias'),
         Part('grids', oracle_grid, enumerate=enum_grids, enum_parallel=True,
@@ -504,7 +564,9 @@ CHECK = Check(
           "with the pattern held fixed; checks finite, >= 0, > 0 for non-empty layers at non-zero "
           "bits, non-decreasing, finite gradients. real-layer-descriptions: vars() of a real "
           "un-converted nn layer plus its output shape (what PIT / SuperNet show the cost function "
-          "for layers outside the search) is priced like the tensor description. Non-trivial = a sweep/grid with >= 2 points; "
+          "for layers outside the search) is priced like the tensor description. selection-coefficient: the NE16 functions (which divide by the weight-selection "
+          "coefficient) stay finite in value, contribution and gradients for coefficients from 1 "
+          "down to 1e-44. Non-trivial = a sweep/grid with >= 2 points; "
           "distinct by case hash."),
     assumptions=[
         "monotonicity is per registered function: generic sweeps never pass through the 1->1 "
